@@ -167,6 +167,19 @@ reg(
     "DESIGN.md 4.3 C05",
 )
 
+reg(
+    "C18",
+    "Every linalg.generic body with 1-2 ops (all), 3 ops over three block arguments, every ordering and wiring of the sign-extending mac's op kinds, and the "
+    "quantised mac body with every single-operand substitution and swap - over operand widths {i8,i32} (thorough adds i16/i64 and all 3-4-op bodies) - goes "
+    "through the real convert-linalg-to-kernel and, when a kernel is recognised, convert-kernel-to-linalg. The scalar function before is compared, on all "
+    "tuples of boundary values of each operand width, with an independent semantics of the named kernel and with the kernel's own expansion; unrecognised "
+    "bodies must be textually unchanged. dispatch-kernels is run on every kernel x operand-type combination x accelerator declaration: library_call only if "
+    "that kernel with exactly those types is declared. LowerRescale is compared with the repository's golden model over a parameter grid and extreme inputs.",
+    "Trusted: wrap-around integer semantics in machines/ir.py, kernel meanings from kernel.py docstrings, util/gemmx/simd_golden_model.py as the rescale reference (double_round = 0, one channel: the documented scope of LowerRescale). convert-tosa-to-kernel is not covered (the tree's tosa.rescale syntax does not parse with the installed xDSL).",
+    "bounded-exhaustive enumeration of bodies x all boundary input tuples, functional equivalence by evaluation",
+    "DESIGN.md 4.5 C18",
+)
+
 NOT_APPLICABLE = []
 
 ALL = [f"C{i:02d}" for i in range(1, 21)]
